@@ -56,9 +56,9 @@ class Ctx:
     def ok(self, rule, key, detail=None, nontrivial=True):
         self.instances.append({"rule": rule, "key": key, "status": "ok", "detail": detail, "nontrivial": nontrivial})
 
-    def fail(self, rule, key, what, loc="?", detail=None):
+    def fail(self, rule, key, what, loc="?", detail=None, alt_keys=()):
         self.instances.append({"rule": rule, "key": key, "status": "fail", "what": what, "loc": loc,
-                               "detail": detail, "nontrivial": True})
+                               "detail": detail, "nontrivial": True, "alt_keys": list(alt_keys)})
 
     def anchor(self, rule, name, value):
         """fail closed when a named anchor (trait, method, type, field, …) is not found"""
@@ -94,10 +94,11 @@ class Ctx:
         for inst in self.instances:
             if inst["status"] != "fail":
                 continue
-            k = (inst["rule"], inst["key"])
-            if k in known_open:
+            ks = [(inst["rule"], inst["key"])] + [(inst["rule"], a) for a in inst.get("alt_keys", ())]
+            hit = [k for k in ks if k in known_open]
+            if hit:
                 inst["status"] = "known"
-                known_hits.append((inst, known_open[k]))
+                known_hits.append((inst, known_open[hit[0]]))
             else:
                 violations.append(inst)
         for inst, e in known_hits:
